@@ -42,6 +42,7 @@ theorem refines_step (op : Op) (s : Store) (h : Inv s) (hc : AGraph.covers op = 
   | addGraphDirect g ig => simp [AGraph.covers] at hc
   | clone g g2 => simp [AGraph.covers] at hc
   | mergeNodes g nid g2 pol => simp [AGraph.covers] at hc
+  | delAllGraphs => simp [AGraph.covers] at hc
   | getNodeProperties g nid => exact ref_getNodeProperties s h g nid
   | getLinkProperties g a b => exact ref_getLinkProperties s h g a b
   | listAllNodeIds g => exact ref_listAllNodeIds s g
@@ -106,6 +107,7 @@ theorem refines_step (op : Op) (d : DStore) (h : Inv d) (hs : single op = true) 
   | addGraphDirect g ig => simp [single, AGraph.covers] at hs
   | clone g g2 => simp [single, AGraph.covers] at hs
   | mergeNodes g nid g2 pol => simp [single, AGraph.covers] at hs
+  | delAllGraphs => simp [single, AGraph.covers] at hs
   | _ => exact key _ (by simp [AGraph.covers]) hk trivial
 
 end FimVerif.DStore
